@@ -219,12 +219,12 @@ func (e *env) resetWorld(md *model) error {
 
 func main() {
 	r := ev.New("C14", "exploration")
-	r.Rule("one case = one sequential history of 40 single commands on a freshly reset cluster (store 1 Up, 3 regions on it): put-store new / same id / same address / id 0 / bad version (RaftCluster.PutStore and gRPC PutStore), RemoveStore with and without physically-destroyed, UpStore, VerifBuryStore, VerifCheckStores, SetStoreWeight, UpdateStoreLabels (merge and force), RemoveTombStoneRecords, gRPC StoreHeartbeat, region placements / evacuations by region heartbeats (sometimes with a peer on a store id that is registered only later), reload of the cluster from storage (RaftCluster.Stop, empty cache, RaftCluster.Start = LoadClusterInfo); targets are drawn from ids 1..6 in every state (incl. tombstone, destroyed, absent); quick: one fail-before/lost-ack fault at a random write of ~1/3 of the steps; thorough: every step is re-issued with a fault at its 1st, 2nd, ... store-record write until no write is left (1/8 of the steps: at every write of any key). distinct = sequence of (command, state of the target before, outcome class, fault class) of the history. Gated phase (heartbeat-race): 12 lifecycle operations (remove, remove physically-destroyed (+replacement on its address), up, bury, check-stores, bury+cleanup, bury+replacement, put same id, labels, weight) on store 2 x both start orders against a gRPC StoreHeartbeat of store 2 that flushes (first heartbeat after a reload), every storage operation of the two workers gated, all release orders enumerated depth-first (distinct = case x start order x released (worker,op) sequence)")
+	r.Rule("one case = one sequential history of 40 single commands on a freshly reset cluster (store 1 Up, 3 regions on it): put-store new / same id / same address / id 0 / bad version (RaftCluster.PutStore and gRPC PutStore), RemoveStore with and without physically-destroyed, UpStore, VerifBuryStore, VerifCheckStores, SetStoreWeight, UpdateStoreLabels (merge and force), RemoveTombStoneRecords, gRPC StoreHeartbeat, region placements / evacuations by region heartbeats (sometimes with a peer on a store id that is registered only later), reload of the cluster from storage (RaftCluster.Stop, empty cache, RaftCluster.Start = LoadClusterInfo); targets are drawn from ids 1..6 in every state (incl. tombstone, destroyed, absent); quick: one fail-before/lost-ack fault at a random write of ~1/3 of the steps; thorough: every step is re-issued with a fault at its 1st, 2nd, ... store-record write until no write is left (1/8 of the steps: at every write of any key). distinct = sequence of (command, state of the target before, outcome class, fault class) of the history. Gated phases (lib/sched, every storage operation of two workers parked, both start orders, all release orders depth-first; distinct = family x case x start order x fault x released (worker,op) sequence): heartbeat-race = a flushing gRPC StoreHeartbeat of store 2 (first heartbeat after a reload) against 13 lifecycle operations on store 2 (remove, remove physically-destroyed (+replacement on its address), up, bury, check-stores, bury+cleanup, bury+replacement, put same id, labels, weight, leader-change style reload); lifecycle-race = 22 pairs of lifecycle operations of different kinds on the same store (put same id | remove / bury, up | bury / check-stores, remove | check-stores, cleanup | put same id, labels | put, weight | remove, reload | remove / bury ...), on two stores competing for one address, and the background check working on a snapshot of several offline stores against an operation on one of them; each case also with a fail-before / lost-ack at the first store-record write of one worker (quick: one variant, thorough: all four x both orders). Populated worlds: 100 and 230 (thorough: 99..2100) store records incl. ids 2^32+-1, 2^63+-1, 2^64-3..2^64-1 in every state left in storage, reloaded (served == stored record by record), then a judged history on the stores at the 100-record page boundaries and the huge ids, mass burial, cleanup, reload")
 	r.Assume("commands are invoked on the RaftCluster object / the gRPC handler methods of a real bootstrapped single-member server; the cluster and the server use core.NewStorage over an instrumented in-memory kv.Base installed with RaftCluster.SetStorage after bootstrap (thorough, last shard: the etcd-backed kv.Base)")
 	r.Assume("storage writes of the server's own background goroutines (10 s checkStores tick, coordinator) are refused by the harness wrapper so that histories are sequential; the same code is driven through VerifCheckStores")
 	r.Assume("region counts of the model are the placements the harness delivered through VerifProcessRegionHeartbeat and pd acknowledged; VerifBuryStore is only called when its documented precondition (store empty) holds in the model; new stores are registered in state Up; peers are never placed on tombstone stores; after a reload the model's placements are what the stored region records (raw scan of raft/r/<id>) say")
 	r.Assume("stored record = what a raw scan of raft/s/<id> and schedule/store_weight/<id>/{leader,region} (absent weight = 1) yields; comparisons ignore last_heartbeat")
-	r.Assume("gated phase: quiescence with a worker blocked on the cluster lock is declared by the scheduler's settle interval (affects exploration order only); the lifecycle worker observes the served stores right after each acknowledgement; a heartbeat is assumed never to change state, flags, address, labels or weights")
+	r.Assume("gated phase: quiescence with a worker blocked on the cluster lock is declared by the scheduler's settle interval (affects exploration order only); the lifecycle worker observes the served stores right after each acknowledgement; a heartbeat is assumed never to change state, flags, address, labels or weights; two observations overlapped by two operations may differ by two allowed moves (Up->Offline->Tombstone); a failed write inside a lifecycle-race is not judged by the served-unchanged clause because the other worker may legitimately change the same record")
 	rng := rand.New(rand.NewSource(r.ShardSeed()))
 
 	// a long leader lease: the run must not lose leadership when the machine is busy (a lost
@@ -274,7 +274,8 @@ func main() {
 
 	md := newModel()
 	e.scripted(md)
-	e.racePhase(md)
+	e.racePhase(md, rng)
+	e.scalePhase(md, rng)
 	replaySeed, replaying := int64(0), false
 	if r.Replay != "" {
 		// replay = the scripted histories plus the one random history named by the witness file
@@ -318,7 +319,7 @@ func main() {
 		m.Close()
 		r.Finish()
 	}
-	for _, c := range []string{"hook_VerifCheckStores", "hook_VerifBuryStore", "hook_VerifProcessRegionHeartbeat", "faults_injected", "race_executions", "race_heartbeat_flushes", "reloads", "placements_on_unregistered_store_id", "transition_Up->Offline", "transition_Offline->Tombstone", "transition_Offline->Up", "tombstone_grpc_requests", "record_deleted"} {
+	for _, c := range []string{"hook_VerifCheckStores", "hook_VerifBuryStore", "hook_VerifProcessRegionHeartbeat", "faults_injected", "race_executions_heartbeat-race", "race_executions_lifecycle-race", "race_faults_injected", "race_heartbeat_flushes", "scale_worlds", "reloads", "placements_on_unregistered_store_id", "transition_Up->Offline", "transition_Offline->Tombstone", "transition_Offline->Up", "tombstone_grpc_requests", "record_deleted"} {
 		if r.Counter(c) == 0 {
 			r.Inconclusive("nothing observed for %s", c)
 		}
